@@ -11,6 +11,9 @@ pub mod c20;
 #[path = "/verif/harness/c19.rs"]
 pub mod c19;
 
+#[path = "/verif/harness/cweb.rs"]
+pub mod cweb;
+
 /// Native replay entry: `VERIF_REPLAY=<file.json> cargo test --lib verif_replay_entry`
 /// file = {"module": "c20", "harness": "k20_1_varint_trio", "vals": [[1,0,..],..]}
 #[cfg(all(not(kani), test))]
@@ -35,6 +38,10 @@ mod replay_entry {
                     .collect()
             })
             .unwrap_or_default();
+        if module == "cweb" {
+            super::cweb::replay_file();
+            return;
+        }
         let mut s = RSrc::new(vals);
         let known = match module.as_str() {
             "c20" => super::c20::replay(&harness, &mut s),
